@@ -3,3 +3,8 @@
         r is Ok ==> r->Ok_0 == self.metadata,                    // [C04]
         r is Ok ==> exists|good: Set<KeyId>| good.len() >= threshold
             && forall|id: KeyId| good.contains(id) ==> counted_ok(*self, $KEYS, id),   // [C04]
+        // completeness: when no key id repeats among the keys nor among the signatures, enough good ids guarantee success
+        (threshold >= 1 && self.signatures@.len() >= 1 && signed_msg(self.metadata) is Some
+            && sig_ids_distinct(self.signatures@) && key_ids_distinct($KEYS)
+            && exists|good: Set<KeyId>| good.len() >= threshold && forall|id: KeyId| good.contains(id) ==> counted_ok(*self, $KEYS, id))
+            ==> r is Ok,   // [C04]
